@@ -615,7 +615,7 @@ AcceptedUpTo(S, a) ==
   IF a < 0 THEN 0 ELSE Len(SelectSeq(LinesAtt(S, "handlerReturn", a), LAMBDA x : x.res.nil)) + AcceptedUpTo(S, a - 1)
 
 MonDriftSession(S) ==
-  IF Scen(S).fam # "c04g" THEN {}
+  IF Scen(S).fam \notin {"c04g", "c07g", "c17g"} THEN {}
   ELSE UNION {
     IF Aligned(S, a) /\ AcceptedUpTo(S, a) # Scen(S).model.attempts[a + 1].acc
     THEN {F("DRIFT.session", S, [what |-> "transactions accepted so far differ from the session model's state after the attempt",
